@@ -15,6 +15,8 @@ SPEC_IMPORTS = BX.IMPORTS
 
 def gen_history(rng, tier):
     fixed = rng.choice([None, None, 2, 4])
+    if rng.random() < 0.06:
+        fixed = rng.choice([33, 40])          # keys longer than 32 bytes: kv key paths of more than 256 bits
     n = rng.randint(4, 10) if tier == "quick" else rng.randint(6, 30)
     m = {}
     ops = []
